@@ -430,12 +430,12 @@ func (t *Tx) Serialize(withWitness bool) []byte {
 	return b
 }
 
-func (t *Tx) Txid() [32]byte      { return DoubleSHA256(t.Serialize(false)) }
-func (t *Tx) Wtxid() [32]byte     { return DoubleSHA256(t.Serialize(true)) }
-func (t *Tx) TotalSize() int      { return len(t.Serialize(true)) }
-func (t *Tx) StrippedSize() int   { return len(t.Serialize(false)) }
-func (t *Tx) Weight() int         { return t.StrippedSize()*(WitnessScaleFactor-1) + t.TotalSize() }
-func (t *Tx) VSize() int          { return (t.Weight() + WitnessScaleFactor - 1) / WitnessScaleFactor }
+func (t *Tx) Txid() [32]byte    { return DoubleSHA256(t.Serialize(false)) }
+func (t *Tx) Wtxid() [32]byte   { return DoubleSHA256(t.Serialize(true)) }
+func (t *Tx) TotalSize() int    { return len(t.Serialize(true)) }
+func (t *Tx) StrippedSize() int { return len(t.Serialize(false)) }
+func (t *Tx) Weight() int       { return t.StrippedSize()*(WitnessScaleFactor-1) + t.TotalSize() }
+func (t *Tx) VSize() int        { return (t.Weight() + WitnessScaleFactor - 1) / WitnessScaleFactor }
 func (t *Tx) IsCoinBase() bool {
 	if len(t.In) != 1 || t.In[0].PrevIndex != 0xffffffff {
 		return false
